@@ -47,6 +47,13 @@ func (e *kvElection) validationLoop(ctx context.Context, termToken string) {
 			isValid, err := e.validateToken(validationCtx)
 			cancel()
 
+			// The read may have outlasted the term (and a new one may have begun): what it
+			// came to concerns nobody any more - a failure of it must not be counted
+			// against, or demote, the new term.
+			if !e.IsLeader() || e.Token() != termToken {
+				return
+			}
+
 			if err != nil {
 				consecutiveFailures++
 				log := e.getLogger()
